@@ -564,6 +564,21 @@ def exchangeSplit (split : Denom → Nat) (total : Coins) : Except Err Coins :=
       | .ok none => .ok cs
       | .ok (some y) => .ok ((d, y) :: cs)) (.ok [])
 
+/-- `IndexedAddrAmts.add` accumulates an address's fees with `sdk.Coins.Add`, whose `Int.Add` panics
+("integer overflow") beyond 256 bits: every address's per-denom TOTAL of the fee inputs has to fit.
+(Fees are non-negative here — a negative one is `feeNeg` — so no partial sum exceeds the total.) -/
+def Indexed.sumsFit (idx : Indexed) : Bool :=
+  idx.all fun e => (dedupDenoms (Coins.denoms e.2)).all fun d => fits256 (Coins.amountOf e.2 d)
+
+/-- `exchange.BuildSettlement` as the real code behaves for sums beyond 256 bits as well: the
+settlement `buildSettlement` computes, or the overflow panic of `IndexedAddrAmts.add` when one
+payer's fees in one denom add up to more than 256 bits (nothing is built, the transaction fails). -/
+def buildSettlementChecked (asks bids : List Order) (lookup : Denom → Except Err (Option Ratio)) :
+    Except Err Settlement :=
+  match buildSettlement asks bids lookup with
+  | .error e => .error e
+  | .ok s => if s.feeInputs.sumsFit then .ok s else .error .overflow
+
 /-- `CollectFees`: all fee inputs to the market account, then the exchange's share from the market
 to the fee collector. -/
 def collectFees (market collector : Addr) (split : Denom → Nat) (feeInputs : Indexed) : Except Err Ledger :=
